@@ -83,7 +83,7 @@ def instantiate(vm, mir, prog, holes):
 ERRCLS = ['EnvironmentError', 'ValError', 'WriteValError', 'ExecError', 'ProduceValError']
 
 
-def run_both(vm, mir, prog, stdin=(), out_fail_at=None, in_fail_at=None, describe=None, max_iter=8, real_lines=None):
+def run_both(vm, mir, prog, stdin=(), out_fail_at=None, in_fail_at=None, describe=None, max_iter=8, real_lines=None, out_fail_mode='error'):
     """returns list of findings.  stdin: [(z3 String term without terminator, terminated: bool)]"""
     out = []
     def bad(role, detail, prop=None):
@@ -93,7 +93,8 @@ def run_both(vm, mir, prog, stdin=(), out_fail_at=None, in_fail_at=None, describ
         if m is None: return
         out.append(finding('violation', role, detail, describe(m) if describe else None, vm.notes))
     lines = real_lines if real_lines is not None else [SymStr(z3.Concat(t, zs('\n')) if term else t) for t, term in stdin]
-    res, odata, idata = exec_in_vm(vm, mir, prog, lines, out_fail_at, in_fail_at)
+    vm.io_events = []
+    res, odata, idata = exec_in_vm(vm, mir, prog, lines, out_fail_at, in_fail_at, out_fail_mode)
     res = conc(vm, res)
     ri = RefInterp(vm, mir, stdin, out_fail_at, in_fail_at, max_iter=max_iter)
     ex = Exec(ri); want = ('ok', None)
@@ -116,6 +117,7 @@ def run_both(vm, mir, prog, stdin=(), out_fail_at=None, in_fail_at=None, describ
         if cls != want[1]: bad('error-class', f'real error {cls}, reference {want[1]}')
     if odata['calls'] != ri.out_calls: bad('output-calls', f'{odata["calls"]} write calls, reference {ri.out_calls}')
     if idata['calls'] != ri.in_calls: bad('input-calls', f'{idata["calls"]} read calls, reference {ri.in_calls}')
+    if odata['calls'] == ri.out_calls and idata['calls'] == ri.in_calls and vm.io_events != ri.events: bad('io-order', f'stream calls in the order {"".join(e[0] for e in vm.io_events)}, reference {"".join(e[0] for e in ri.events)} (o = write, i = read)')
     vm.witness = getattr(vm, 'witness', set()) | {'run-done'}
     return out
 
@@ -174,35 +176,43 @@ def program_text(template, cex):
 
 
 def native_replay(ctx, template, f):
+    """replay a program-level counterexample against the native dev and release builds (with its fault plan, if any) and
+    compare stdout / outcome / stream-call order with the reference interpreter run concretely under the same plan"""
     cex = f.get('cex') or {}
     out = {'reproduced': None}
-    src = program_text(template, {k: v for k, v in cex.items() if k not in ('stdin', 'template', 'out_fail_at', 'in_fail_at')})
+    skip = ('stdin', 'template', 'out_fail_at', 'in_fail_at', 'out_fail_mode', 'program')
+    src = program_text(template, {k: v for k, v in cex.items() if k not in skip})
     if src is None: return out
     stdin = ''.join(t + ('\n' if term else '') for t, term in cex.get('stdin', []))
     out['program'] = src
+    of, inf, mode = cex.get('out_fail_at'), cex.get('in_fail_at'), cex.get('out_fail_mode') or 'error'
+    req = {'op': 'program', 'src': src, 'stdin': stdin}
+    if of is not None: req.update(out_fail_at=of, out_fail_mode=mode)
+    if inf is not None: req['in_fail_at'] = inf
     res = {}
     for prof in ('dev', 'release'):
-        nv = ctx.native(prof).call({'op': 'program', 'src': src, 'stdin': stdin}, timeout=20)
-        out[prof + '_native'] = {k: nv.get(k) for k in ('parse', 'result', 'stdout', 'panic', 'crash', 'timeout', 'error_debug') if k in nv}
+        nv = ctx.native(prof).call(req, timeout=20)
+        out[prof + '_native'] = {k: nv.get(k) for k in ('parse', 'result', 'stdout', 'events', 'panic', 'crash', 'timeout', 'error_debug') if k in nv}
         if f['kind'] in ('panic', 'ub'): res[prof] = bool('panic' in nv or 'crash' in nv or 'timeout' in nv)
         else: res[prof] = None
-    # value-level findings: compare the native outcome with the reference interpreter run concretely in the VM
-    if f['kind'] == 'violation' and cex.get('out_fail_at') is None and cex.get('in_fail_at') is None:
+    if f['kind'] == 'violation':
         from ..vm import VM, Explorer
         mir = ctx.mir('dev')
         vm = VM(mir, Explorer(), fuel=50_000_000); vm.str_mode = 'bounded'
         try:
             r = conc(vm, parse_in_vm(vm, mir, src))
             if r.variant == 0:
-                ri = RefInterp(vm, mir, [(zs(t), term) for t, term in cex.get('stdin', [])], max_iter=50)
+                ri = RefInterp(vm, mir, [(zs(t), term) for t, term in cex.get('stdin', [])], of, inf, max_iter=50)
                 ex = Exec(ri); want_err = False
                 try: ex.program(r.fields[0])
                 except RErr: want_err = True
                 want_out = ''.join(zstr(z3.simplify(t)) for t in ri.out)
+                want_ev = ''.join(e[0] for e in ri.events)
                 for prof in ('dev', 'release'):
                     nv = out[prof + '_native']
-                    res[prof] = bool('panic' in nv or nv.get('stdout') != want_out or (nv.get('result') == 'err') != want_err)
-                out['reference'] = {'stdout': want_out, 'fails': want_err}
+                    # the native reader is asked once more at end of input by BufReader only when a listen needs it: same count as the reference
+                    res[prof] = bool('panic' in nv or nv.get('stdout') != want_out or (nv.get('result') == 'err') != want_err or (nv.get('events') is not None and nv.get('events') != want_ev))
+                out['reference'] = {'stdout': want_out, 'fails': want_err, 'events': want_ev}
         except (Crash, Unmodelled, Exception) as e:
             out['reference_error'] = f'{type(e).__name__}: {e}'[:200]
     out.update(res)
